@@ -314,7 +314,9 @@ Section Construct.
 
   Variable root : node.
 
-  Fixpoint construct_val (fuel : nat) (path : list hkey) (n : node) : res pval :=
+  (* tree.construct(): a Ref is the memoised node itself.  A cyclic archive recurses until the fuel is
+     exhausted (RecursionError in the implementation, see loads_model). *)
+  Fixpoint construct_val (fuel : nat) (n : node) : res pval :=
     match fuel with
     | O => Raise EFuel
     | S fuel' =>
@@ -322,15 +324,10 @@ Section Construct.
         | Leaf _ _ => Raise EOther
         | Ref _ id =>
             match find_id id root with
-            | Some target => construct_val fuel' path target
+            | Some target => construct_val fuel' target
             | None => Raise EOther
             end
-        | Node h subs =>
-            match h_id h with
-            | Some i => if memo_mem i path then Raise ERecursion
-                        else cbody h subs (construct_val fuel' (i :: path))
-            | None => cbody h subs (construct_val fuel' path)
-            end
+        | Node h subs => cbody h subs (construct_val fuel')
         end
     end.
 End Construct.
@@ -341,7 +338,10 @@ Definition construct_fuel : nat := 3000.
    load = get_tree + construct *)
 Definition loads_model (C : cenv) (schema : json) : res pval :=
   do (t, _) <- root_tree (c_env C) schema;
-  construct_val C (file_table schema) t construct_fuel [] t.
+  match construct_val C (file_table schema) t construct_fuel t with
+  | Raise EFuel => Raise ERecursion        (* unbounded recursion through a cycle of ids *)
+  | r => r
+  end.
 
 (* the environment of a load of the archive a *)
 Definition env_of (reg : registry) (cur : Z) (a : archive) : env :=
